@@ -32,4 +32,22 @@ PROPS = {
         "lean_modules": ["C05"],
         "rule": "every shape of rank 0-3 and vector-like rank-4 shapes x constructors x {as built, every transpose, random slices, slices of transposes} x scripts of Next/Reset/SetReverse/SetForward/Coord/Done; offsets, coordinates, exhaustion and the cells read at the offsets are compared",
     },
+    "C04": {
+        "lean_modules": ["C04"],
+        "rule": "parents of rank 1-3 (quick) / 1-4 (thorough), dims 1-4, 8 element types, 3 constructors; views = slice / lazy transpose / slice of transpose / slice of slice; one of 9 scenarios per program: Memset, Zero, Copy into the view, write through the parent, Clone + writes on both sides, Materialize, SafeT, CopyTo, Copy out; the parent's and the view's full dumps (elements by At, raw window) are compared after the writes",
+    },
+    "C13": {
+        "lean_modules": ["C13"],
+        "rule": "shapes of rank 0-4 with dims 1-4 (quick) / 1-5 (thorough); Shape.S and AP.T calculators vs the executed Slice / T on the same (valid and invalid) arguments; Reshape to every factorisation of the size (and to a wrong size) after slicing, transposing, cloning, materialising; the metadata invariant wf (one stride per axis, size = product of shape, distinct in-window addresses) is evaluated in every dump of every check",
+    },
 }
+
+HOOK_COMMITS = ["b42be2f"]
+NOT_YET = {}
+DEFAULT_LEVEL_TEXT = ("Unbounded: Lean 4 theorems (kernel-checked, axioms audited) state that the executable model M of the anchored Go functions "
+                      "computes the coordinate-wise specification S for every rank, shape, stride vector and argument. Bounded: that M is what /repo does is "
+                      "re-established on every run by executing M and the real library on the same generated operation programs and comparing every observation; "
+                      "the same run compares the library directly with S (property oracle). Defect regions are explicit decidable predicates (known_findings.json).")
+DEFAULT_LEVEL_NOTE = ("Trusted: Lean kernel + {propext, Classical.choice, Quot.sound}; the hand-written model is tied to the source only by the bounded correspondence run "
+                      "(program domain described in the evidence file); Go runtime and third-party packages; harness/driver/comparator. Theorems cover the functions named in DESIGN.md §4 for this property, "
+                      "not every line the property touches: the rest is covered by the correspondence + oracle only.")
